@@ -2,7 +2,7 @@ from .. import solverplan, oracles
 ID = 'C02'
 LEVEL = 'exploration'
 REQUIRED_PROBES = ['c02.evals_checked_against_box']
-RUNS = {'quick': 1500, 'thorough': 40000}
+RUNS = {'quick': 1500, 'thorough': 100000}
 WALL = {'quick': 120, 'thorough': 1500}
 REAL = ["mystic solvers, tools.wrap_*, constraints.and_/boundsconstrain, symbolic bounds (sympy), termination, monitors"]
 STUB = ["cost, constraints, penalty, callback (scripted peers)", "clocks", "signal/tty", "file open() proxy"]
